@@ -251,6 +251,42 @@ Theorem C02_agent_events_safe : forall eps, 0 < eps -> forall tasks l ns k,
 Proof. exact agent_events_safe. Qed.
 Print Assumptions C02_agent_events_safe.
 
+(* agent scheduler cache, bind execution over a BATCH of accepted contexts (BATCH_BIND_NUM > 1): the
+   batch is the fold of single-context steps -- the resyncs of the failed pre-binds, then the resyncs
+   of the bindings the binder reports failed PER TASK, each in batch order -- and nothing else *)
+Theorem C02_flow_batch_is_fold : forall eps tasks pf bf ns pending,
+  fst (flow_batch eps tasks pf bf ns pending) =
+  fold_left (agent_step eps tasks) (flow_ops pf pending ++ flow_ops bf (flow_pass pf pending)) ns.
+Proof. exact flow_batch_is_fold. Qed.
+Print Assumptions C02_flow_batch_is_fold.
+
+(* whatever the pre-binders and the binder answer, the batch keeps every node ledger sound (idle
+   bounds, ledger identity node_acct) *)
+Theorem C02_flow_batch_safe : forall eps, 0 < eps -> forall tasks pf bf ns pending,
+  nodes_all (bnode_ok eps) ns -> nodes_all (bnode_ok eps) (fst (flow_batch eps tasks pf bf ns pending)).
+Proof. exact flow_batch_safe. Qed.
+Print Assumptions C02_flow_batch_safe.
+
+(* the mechanism (law 117): a context that no failure names is on its node's ledger after the batch
+   exactly as before, whatever happened to the other contexts of its batch *)
+Theorem C02_flow_batch_keeps_bound : forall eps tasks pf bf ns pending tid nid,
+  tid ∉ pf -> tid ∉ bf ->
+  on_ledger (fst (flow_batch eps tasks pf bf ns pending)) tid nid = on_ledger ns tid nid.
+Proof. exact flow_batch_keeps_bound. Qed.
+Print Assumptions C02_flow_batch_keeps_bound.
+
+(* a failure applied batch-wide (seeded mutant C02-r8-2) takes a pod the API server bound off the
+   ledger; the next bind is admitted into its room: 1500m + 2000m on 3000m *)
+Theorem C02_batch_wide_failure_refuted :
+  snd (flow_batch 2 fb_tasks [] [1%positive] fb_admitted fb_pending) = [(2, 1)]%positive /\
+  (let ns := fst (flow_batch 2 fb_tasks [] [1%positive] fb_admitted fb_pending) in
+   cpu_held ns = 1500 * 16 /\ snd (agent_add_bind_task 2 ns (fb_t 3) 1%positive) = BRefused ErrInsufficient) /\
+  (let ns := flow_batch_wide 2 fb_tasks [] [1%positive] fb_admitted fb_pending in
+   cpu_held ns = 0 /\ snd (agent_add_bind_task 2 ns (fb_t 3) 1%positive) = BOk /\
+   cpu_held (fst (agent_add_bind_task 2 ns (fb_t 3) 1%positive)) = 2000 * 16).
+Proof. exact batch_wide_failure_refuted. Qed.
+Print Assumptions C02_batch_wide_failure_refuted.
+
 (* the executable form of cinv used by law 115 is sound *)
 Theorem C02_cinv_b_sound : forall eps c, 0 < eps -> cinv_b eps c = true -> cinv eps c.
 Proof. exact cinv_b_sound. Qed.
